@@ -823,7 +823,7 @@ func init() {
 	dawgWriters := []string{"(*dawg.Dawg).commonPrefix", "(*dawg.Dawg).addSuffix", "dawg.replaceOrRegister", "(*dawg.Dawg).GobDecode", "(*dawg.Builder).Add", "(*dawg.Builder).Finish"}
 	register(&propDef{
 		id:          "C12",
-		explanation: "Decides structural clauses of the builder/query split: REJECT-PURE (on every CFG path of Builder.Add that ends in a non-nil error return nothing rooted at the receiver is written, lazy Initialise excepted), MUSTGUARD (removing the edges on which 'previous word < new word' or 'no previous word' holds disconnects every builder mutation from the entry of Add, so neither equal nor smaller words can be added), NONEMPTY (replaceOrRegister's t.links[len-1] needs len(t.links) >= 1, lifted to a precondition and proved at each call site by E-PROVE), PURE + WHO-WRITES (queries write no Dawg node; the only functions that can are the construction-time ones), EQUIV (areEquivalent, on whose answer two states are merged, is explored under the hypotheses 'the nodes differ in finality / in the number of children / in one label / in one target': with the control-flow edges that the hypothesis rules out removed - the equal edge of the field's comparisons, the normal exit of a comparison loop whose recognised index range, together with explicitly compared indices, covers the whole slice - no return that may be true is reachable), OWNWORD (Add stores no memory of its argument into the builder, so the word the order check compares against is the builder's own copy and not a buffer the caller goes on to reuse), SEAL (Finish stores a constant into a builder field - the finished mark, found in the code - on every path to a successful return, and in Add and Finish no write to the builder is reachable from the entry once the edges on which that mark is known to be absent are removed, the lazy initialiser excepted: the automaton handed out is not edited afterwards). Does not decide the accepted language, minimality or ranks.",
+		explanation: "Decides structural clauses of the builder/query split: REJECT-PURE (on every CFG path of Builder.Add that ends in a non-nil error return nothing rooted at the receiver is written, lazy Initialise excepted), MUSTGUARD (removing the edges on which 'previous word < new word' or 'no previous word' holds disconnects every builder mutation from the entry of Add, so neither equal nor smaller words can be added), NONEMPTY (replaceOrRegister's t.links[len-1] needs len(t.links) >= 1, lifted to a precondition and proved at each call site by E-PROVE), PURE + WHO-WRITES (queries write no Dawg node; the only functions that can are the construction-time ones), EQUIV (areEquivalent, on whose answer two states are merged, is explored under the hypotheses 'the nodes differ in finality / in the number of children / in one label / in one target': with the control-flow edges that the hypothesis rules out removed - the equal edge of the field's comparisons, the normal exit of a comparison loop whose recognised index range, together with explicitly compared indices, covers the whole slice - no return that may be true is reachable), OWNWORD (Add stores no memory of its argument into the builder, so the word the order check compares against is the builder's own copy and not a buffer the caller goes on to reuse), SEAL (Finish stores a constant into a builder field - the finished mark, found in the code - on every path to a successful return, and in Add and Finish no write to the builder is reachable from the entry once the edges on which that mark is known to be absent are removed, the lazy initialiser excepted: the automaton handed out is not edited afterwards; and the root Initialise installs is a fresh allocation none of whose fields refers to memory of the builder's previous state, so re-using a builder cannot recycle the slices of a Dawg that was handed out). Does not decide the accepted language, minimality or ranks.",
 		notDecided:  []string{"that the automaton accepts exactly the words added", "minimality (node count)", "rank arithmetic of Lookup"},
 		assumptions: []string{"bytes.Compare returns a value in {-1,0,1}"},
 		run: func(c *Ctx, tier string) []*RuleResult {
@@ -855,8 +855,9 @@ func init() {
 			}
 			ow := &RuleResult{Rule: "OWNWORD", Doc: "Add keeps no memory of its argument in the builder: the word the order check compares against is the builder's own copy, which a caller reusing its buffer cannot rewrite", MinInst: 1}
 			ruleOwnWord(c, ow, "(*dawg.Builder).Add")
-			sl := &RuleResult{Rule: "SEAL", Doc: "Finish marks the builder finished on every successful return (a constant stored into a builder field), and in Add and Finish no write to the builder is reachable once that mark is set: the automaton handed out is not edited afterwards", MinInst: 3}
+			sl := &RuleResult{Rule: "SEAL", Doc: "Finish marks the builder finished on every successful return (a constant stored into a builder field), and in Add and Finish no write to the builder is reachable once that mark is set: the automaton handed out is not edited afterwards", MinInst: 4}
 			ruleSeal(c, sl, "(*dawg.Builder).Finish", "(*dawg.Builder).Initialise", []string{"(*dawg.Builder).Add", "(*dawg.Builder).Finish"})
+			ruleFreshRoot(c, sl, "(*dawg.Builder).Initialise", "Dawg")
 			return []*RuleResult{rp, mg, ne, pure, ww, bw, eq, ow, sl}
 		},
 		controls: func(ctl *Ctx) []*RuleResult {
@@ -902,6 +903,10 @@ func init() {
 			ruleSeal(ctl, sl, "(*sealctl.B3).Finish", "(*sealctl.B3).init", []string{"(*sealctl.B3).BadAddIgnoresMark", "(*sealctl.B3).GoodAdd", "(*sealctl.B3).Finish"})
 			ruleSeal(ctl, sl, "(*sealctl.B4).GoodFinishEnum", "(*sealctl.B4).init", []string{"(*sealctl.B4).GoodAddEnum", "(*sealctl.B4).GoodFinishEnum"})
 			out = append(out, sl)
+			fr := &RuleResult{Rule: "SEAL"}
+			ruleFreshRoot(ctl, fr, "(*sealctl.B5).BadInitKeepsSlices", "node")
+			ruleFreshRoot(ctl, fr, "(*sealctl.B5).GoodInit", "node")
+			out = append(out, fr)
 			ow := &RuleResult{Rule: "OWNWORD"}
 			ruleOwnWord(ctl, ow, "(*guardctl.B).BadAddKeepsWord")
 			ruleOwnWord(ctl, ow, "(*guardctl.B).GoodAddCopiesWord")
